@@ -46,8 +46,9 @@ CLAIMED = {
             'ordered; insert at a symbolic index or delete), each produced by the real insert_index / delete_index on the author replica, are '
             'delivered in both causal orders with a duplicate, then a third insert/delete at a symbolic index by any actor is applied on the '
             'converged replica and re-delivered to a lagging one: replicas with the same delivered ops are ==, every element appears once, common '
-            'elements keep one relative order on all replicas. Five output slices, each decided by the solver. Histories longer than 3 ops and '
-            'more than one concurrent pair are outside the claim.', '§6 C12'),
+            'elements keep one relative order on all replicas, re-delivered old ops (also the insert of a deleted element) change nothing. A '
+            'second scenario harness: two actors delete the same element concurrently and one keeps editing; every delivery order converges and '
+            'keeps the later edit. Longer histories are outside the claim.', '§6 C12'),
     'C13': ('List: insert_index lands at the clamped index and delete_index removes the i-th element (Vec model) on the author replica and on a '
             'converged replica holding concurrent siblings (h_list_hist3 slices 0 and 3). GList: on the state obtained by merging two replicas that inserted concurrently (symbolic indices, distinct symbolic elements, '
             'concurrent siblings with equal rationals included) insert(i,x), insert_after(id,x) and insert_before(id,x) are compared with the Vec '
